@@ -10,6 +10,9 @@ TRUST = ("Trusted: Go type checker and go/ssa (x/tools v0.29.0), CHA/VTA call gr
 
 # id -> (technique, level text, design ref)   -- only properties whose check exists are listed here
 CLAIMS = {
+    "C07": ("whole-program storage-distance (ownership) analysis over go/ssa with the receiver of every extraction method of *explain.Problem protected; error-discipline analysis (error tested before the co-result is dereferenced, propagated as nil+error)",
+            "Decides that no store reachable from a MUS / unsat-subset method goes into storage that may belong to the caller's problem (scratch fields and deferred-restore growth excepted) and that sub-extraction errors are checked and propagated. Necessary conditions of \"the caller's problem is left unchanged\" and \"an error is returned instead\"; unsatisfiability and minimality of the result are not decided.",
+            "DESIGN.md section 5, C07"),
     "C01": ("finite-domain range analysis of solver.Status over go/ssa with branch refinement at Solve's returns; store-implies-watch and drop-implies-unwatch pairing on the clause database; freshness of the published model",
             "Decides on every path that Solve answers only Sat or Unsat, that every clause stored is watched and every clause dropped is unwatched by the same function, and that the published model is a fresh copy. Necessary conditions; correctness of verdict and model is not decided.",
             "DESIGN.md section 5, C01"),
